@@ -997,7 +997,9 @@ def bounds(tier, seed):
         'int_lists': 'every list of 0..3 values of list_core as one row; every ordered pair of lists of 0..2 values of '
                      'list_pair_core as two rows; every ordered triple of lists of 0..2 values of list_triple_core',
         'float_texts': 'sign {"", "-"} x mantissa digits %s of length 1..%d with no point or a point at every position x '
-                       'exponents; plus mantissa patterns of length 6..17 x the quick exponents' % (M.MANT_DIGITS, d['mant_len']),
+                       'exponents; plus mantissa patterns of length 6..17 x the quick exponents; plus few significant digits written '
+                       'out in full (1, 9, 5, 93, 18, 10 followed by 10..24 zeros with "", ".", ".0", ".5"; 0.00..0d with 10..24 zeros) x '
+                       'exponents {"", e0, e-10, e10}' % (M.MANT_DIGITS, d['mant_len']),
         'float_batches': 'every short text between %d and every long text between %d (decimal, scientific) partner pairs, '
                          'partner order alternating; every ordered pair of the %d-text core' % (
                              d['sandwiches_per_short_text'], d['sandwiches_per_long_text'], len(M.FLOAT_CORE_TEXTS)),
@@ -1074,6 +1076,8 @@ def gen_cases(tier, seed):
         short += list(M.float_texts((m for m in M.short_mantissas(d['mant_len']) if len(m.replace('.', '')) == d['mant_len']),
                                     d['exponents_longest_mantissa']))
     longt = list(M.float_texts(M.long_mantissas(d['long_patterns']), d['long_exponents']))
+    # few significant digits written out in full (1 followed by 20 zeros, 0.000...05): texts of up to 27 characters
+    longt += list(M.float_texts(M.written_out_mantissas(), ('', 'e0', 'e-10', 'e10')))
     k = 0
     nd, ns = len(M.PARTNERS_DEC), len(M.PARTNERS_SCI)
     n_short = len(short)
